@@ -439,6 +439,11 @@ class CompositeFrontend(ConstrainedFrontend):
                 continue
 
             log.debug("... simplifying child solver %r", s)
+            if s not in self._owned_solvers:
+                # the child is shared with the solver this one was branched from: rewrite a copy, not the original
+                unchecked = s in self._unchecked_solvers
+                s = self._claim(s)
+                self._store_child(s, invalidate_cache=unchecked)
             s.simplify()
             results = self._split_child(s)
             for ns in results:
